@@ -106,6 +106,9 @@ def matrix():
         cases.append((pre + "fan-in", "services:\n  leaf: {value: V}\n" + "".join("  u%d: {constructor: N, arguments: [\"@leaf\", \"%%p%%\"]}\n" % i for i in range(FAN)) + "parameters: {p: 1}\n"))
         cases.append((pre + "many-tokens", "parameters:\n  p: \"%s\"\n  q: 1\n" % ("%q% " * (2 * FAN))))
         cases.append((pre + "many-small-cycles", "services:\n" + "".join("  x%d: {constructor: N, arguments: [\"@y%d\"]}\n  y%d: {constructor: N, arguments: [\"@x%d\"]}\n" % (i, i, i, i) for i in range(L + 2))))
+    # validators that look a referenced service up again: references that lead nowhere, from every scope
+    for sc in ("shared", "contextual", "non_shared"):
+        cases.append(("dangling-from-" + sc, "services:\n  a: {constructor: N, scope: %s, arguments: [\"@ghost\", \"@b\"], fields: {F: \"@nope\"}, tags: [t]}\n  b: {constructor: N, arguments: [\"@ghost2\", \"!tagged nobody\", \"%%gone%%\"]}\ndecorators:\n  - {tag: t, decorator: D, arguments: [\"@phantom\", \"%%void%%\"]}\n" % sc))
     cases.append(("param-self", "parameters: {p: \"%p%\"}\n"))
     cases.append(("param-mutual", "parameters: {p: \"%q%\", q: \"x%p%\"}\nservices: {s: {constructor: N, arguments: [\"%p%\"]}}\n"))
     cases.append(("service-self", "services: {s: {constructor: N, arguments: [\"@s\"], tags: [t], fields: {F: \"!tagged t\"}}}\n"))
@@ -132,7 +135,7 @@ def run(tier, seed, replay):
     cases = matrix()
     specs = []
     for name, text in cases:
-        for fl in ({}, {"stub": True}) if tier == "thorough" else ({},):
+        for fl in (({}, {"stub": True}) if tier == "thorough" else ({},)) + (({"ignore_services": True}, {"ignore_services": True, "ignore_params": True}) if name.startswith("dangling-from-") else ()):
             sp = common.mk_spec(len(specs), [text], flags=dict(fl))
             sp["what"] = [name]
             specs.append(sp)
